@@ -36,6 +36,8 @@ CONSTANTS MaxRows, MaxLen,    \* step machine: 1..MaxRows rows of 1..MaxLen item
           OldMax,             \* emission: old-style files for row counts <= OldMax
           EDims, CLevels,     \* storage parameters the result must not depend on (element
                               \* width 0 = scalar / 2 = two-vector, zlib level)
+          PinnedTree,         \* FALSE: the current (repaired) code; TRUE re-creates the two load branches of the
+                              \* pinned tree, used only to show that RoundTripOneRow / OldStyleStrideIsSlice discriminate
           Emit
 
 VARIABLES kind,    \* "ragged" (has .lengths) | "rect" (plain ndarray) | "order"
@@ -155,11 +157,18 @@ RaRowSlice(a, s) ==
   ELSE LET rows == SliceSeq(Partition(a.items, a.lengths), None, None, s)
        IN Ra(a.dt, RowLens(rows), Flatten(rows))
 
+(* a[:, ::stride] on a RaggedArray: every stride-th item of each row (the repaired old-style   *)
+(* branch, fix d8821e5; the pinned tree took a[::stride], RaRowSlice above)                   *)
+RaColSlice(a, s) ==
+  IF a.kind # "ra" THEN a
+  ELSE LET rows == [r \in 1..Len(a.lengths) |-> SliceSeq(Partition(a.items, a.lengths)[r], None, None, s)]
+       IN Ra(a.dt, RowLens(rows), Flatten(rows))
+
 (* ---- ra.load, keys is None ------------------------------------------------- *)
 LoadNone(f, s) ==
   IF Has(f, NmLengths)
   THEN IF Has(f, NmArray)
-       THEN RaRowSlice(RaCtor(Get(f, NmArray).dt, Get(f, NmArray).items, Get(f, NmLengths).items), s)
+       THEN (IF PinnedTree THEN RaRowSlice(RaCtor(Get(f, NmArray).dt, Get(f, NmArray).items, Get(f, NmLengths).items), s) ELSE RaColSlice(RaCtor(Get(f, NmArray).dt, Get(f, NmArray).items, Get(f, NmLengths).items), s))
        ELSE Err("NoSuchNodeError")
   ELSE IF Has(f, NodeName(TagArr, 0, 1))
        THEN Nd(Get(f, NodeName(TagArr, 0, 1)).dt, SliceSeq(Get(f, NodeName(TagArr, 0, 1)).items, None, None, s))
@@ -201,11 +210,16 @@ LoadMulti(f, kk, s) ==
      ELSE IF \E k \in 1..Len(kk) : Len(nodes[k]) # ls[k] THEN Err("Misfit")   \* never (LengthsAreCeil)
      ELSE RaCtor(Get(f, kk[1]).dt, flat, ls)
 
+(* `len(keys) == 1 and not (listed and keys[0].endswith('_00'))` (fix 8f9eda5): a single node   *)
+(* named ..._00 found by listing is the one row of a ragged array, not a stored ndarray         *)
+EndsWith00(nm) == Len(nm) >= 3 /\ nm[Len(nm) - 2] = 95 /\ nm[Len(nm) - 1] = 48 /\ nm[Len(nm)] = 48
+SingleAsArray(km, kk) == Len(kk) = 1 /\ (PinnedTree \/ ~(km = "all" /\ EndsWith00(kk[1])))
+
 LoadKeys(f, km, kl, s) ==
   LET kk == IF km = "all" THEN ListNodes(f) ELSE kl
   IN IF \E k \in 1..Len(kk) : ~Has(f, kk[k]) THEN Err("NoSuchNodeError")
      ELSE IF OldStyleWarnRaises(f) THEN Err("TypeError")
-     ELSE IF Len(kk) = 1 THEN Nd(Get(f, kk[1]).dt, SliceSeq(Get(f, kk[1]).items, None, None, s))
+     ELSE IF SingleAsArray(km, kk) THEN Nd(Get(f, kk[1]).dt, SliceSeq(Get(f, kk[1]).items, None, None, s))
      ELSE LoadMulti(f, kk, s)
 
 Load(f, km, kl, s) == IF km = "none" THEN LoadNone(f, s) ELSE LoadKeys(f, km, kl, s)
@@ -230,9 +244,11 @@ Def(knd, xx, dt, km, kl, s) ==
 (* ========================================================================== *)
 (* Part 5: classes and invariants                                             *)
 (* ========================================================================== *)
-(* The transcription is known to leave the definition in two classes of calls  *)
-(* (reported as findings of the pinned tree) and one class has no stated       *)
-(* meaning; everywhere else transcription = definition is an invariant.        *)
+(* The pinned tree left the definition in two classes of calls (one-row ragged *)
+(* arrays listed from the file, strided old-style files); both were repaired   *)
+(* (fix 8f9eda5, d8821e5) and the transcription follows the repaired code, so  *)
+(* Deviating is empty and RoundTripOneRow / OldStyleStrideIsSlice are ordinary *)
+(* invariants.  One class has no stated meaning (Unspecified).                 *)
 Class(knd, nrows, sty, km, nk, s) ==
   IF knd = "rect" THEN (IF sty = "old" THEN "rect/old-style" ELSE IF km = "list" THEN "rect/key" ELSE "rect")
   ELSE IF sty = "old"
@@ -241,7 +257,7 @@ Class(knd, nrows, sty, km, nk, s) ==
   ELSE IF km = "all" THEN (IF nrows = 1 THEN "ragged-one-row/all" ELSE "ragged/all")
   ELSE IF nk = 1 THEN "ragged/single-key" ELSE "ragged/keys"
 
-Deviating == {"ragged-one-row/all", "old-style/strided"}
+Deviating == {}
 Unspecified == {"unspecified/old-style-by-keys"}
 
 Cls == Class(kind, Len(x), style, keys.m, Len(keys.l), stride)
@@ -298,16 +314,8 @@ StrideIsSlice ==
 KeysSubset ==
   (Done /\ keys.m = "list" /\ Cls \notin Unspecified) => res = Expected
 
-(* element type and values never depend on anything but the input, also in the deviating classes: *)
-(* a one-row ragged array comes back with the right values, only as a bare array; an old-style    *)
-(* strided load returns whole rows                                                                 *)
-DeviationsAreAsDescribed ==
-  /\ (Done /\ Cls = "ragged-one-row/all") => res = Nd(tag, Strided(x[1], stride))
-  /\ (Done /\ Cls = "old-style/strided") =>
-        res = DefRa(tag, SliceSeq(x, None, None, stride))
-
-(* the two findings, stated as the invariants the pinned tree breaks (checked with the    *)
-(* expectation that TLC refutes them on the transcription)                                  *)
+(* the two classes the pinned tree broke (the what-if constant below re-creates that tree to show *)
+(* that the invariants do discriminate)                                                            *)
 RoundTripOneRow == (Done /\ Cls = "ragged-one-row/all") => res = Expected
 OldStyleStrideIsSlice == (Done /\ Cls = "old-style/strided") => res = Expected
 
@@ -388,7 +396,7 @@ LOpen ==
 LKeys ==
   /\ pc = "l_keys"
   /\ IF OldStyleWarnRaises(file) THEN res' = Err("TypeError") /\ pc' = "done"
-     ELSE IF Len(ks) = 1
+     ELSE IF SingleAsArray(keys.m, ks)
      THEN /\ res' = (IF Has(file, ks[1])
                      THEN Nd(Get(file, ks[1]).dt, SliceSeq(Get(file, ks[1]).items, None, None, stride))
                      ELSE Err("NoSuchNodeError"))
